@@ -7,10 +7,28 @@ LEVELS = {
     'C02': 'proof',
     'C05': 'proof',
     'C06': 'proof',
+    'C08': 'proof',
+    'C07': 'other',
 }
-EXPLAIN = {}
+EXPLAIN = {
+    'C07': 'Mixed: deductive (all real values at bounded sizes) for aligned_source/alignment_error/rejection on every alignment class, translation and affine recovery + optimality certificates, 2-D rotation orthogonality / built-from-svd / never-a-reflection, PWA vertex, per-triangle affine and edge-continuity clauses; bounded run-time contracts (seeded, never counted as proved) for 3-D rotations, similarity and uniform-scale recovery/size/optimality against an independent Kabsch reference. coverage.obligations/discharged count the deductive part, coverage.bounded_cases the stand-ins.',
+}
 NOT_CLAIMED = {}
 CLAIMS = {
+    'C08': dict(
+        engine='symnp (E2)',
+        design_ref='DESIGN.md §6 C08',
+        technique='contract-based deductive verification: set_target contract "post-state == state of a fresh constructor call" over symbolic source/old target/new target, dependency results functional',
+        text='For all alignment classes and all constructor options (rotation x allow_mirror, kernels), 2-D and 3-D: after set_target(t1) on an alignment fitted to an arbitrary t0 the full state, map and aligned source equal those of a fresh Class(source, t1, **options); copies taken before/after are unaffected/equal; source and passed point sets untouched; incompatible targets rejected with the state unchanged. Independence from the history follows because the old target is symbolic (G0). GPA clause: bounded stand-in.',
+        note='N = d+1 points (3 for TPS/PWA), values universal; svd/solve/sqrt as functional dependency contracts; TPS coefficients via functional callee contract; GPA is a bounded run-time check.',
+    ),
+    'C07': dict(
+        engine='symnp (E2)',
+        design_ref='DESIGN.md §6 C07',
+        technique='contract-based deductive verification for the polynomial clauses (translation/affine certificates, 2-D rotation via svd contract, PWA); bounded run-time contracts against an independent Kabsch reference for the svd/sqrt-heavy clauses',
+        text='See evidence explanation: deductive where the obligations discharge, bounded stand-ins elsewhere (3-D rotation, similarity, uniform scale). Optimality is proved as certificates (zero-sum residual, normal equations); certificate => optimum is a paper lemma.',
+        note='G1/G5 paper lemmas; bounded parts are seeded samples (mirrored and non-mirrored data, with and without noise).',
+    ),
     'C06': dict(
         engine='symnp (E2)',
         design_ref='DESIGN.md §6 C06',
